@@ -19,9 +19,15 @@ PARTIAL = [
     "(`sizes_consistent_after_any_history`); the 12 size clauses of Circuit::check() follow (`check_size_clauses_hold`, clauses "
     "and the inline getters translated from the source).  The effect of each member write on the member's length is "
     "regenerated from the AST (tools/gen/ApiSizes.py -> Gen/ApiSizes.lean, tied to Gen/Api by `sized_tables_erase_to_api`) and "
-    "executed by drv_C10 against the real member sizes for every setter call of every trace (`szset` lines).  NOT a theorem: "
-    "(a) the VALUE clauses of consistency — netLimits_.front() == 0 (the 13th clause of check()), netLimits_ sorted, pin cells "
-    "in range: these rest on the oracle (Circuit::check() after every call) and on C19's refusal theorems; (b) that the placers "
+    "executed by drv_C10 against the real member sizes for every setter call of every trace (`szset` lines).  The VALUE clauses "
+    "of consistency — netLimits_.front() == 0 (the 13th clause of check()), netLimits_ non-decreasing and ending at "
+    "pinCells_.size(), every pin naming an existing cell, offset and weight vectors of matching length — are theorems over the "
+    "hand-written value model Model/NetsValue.lean of the constructor, addNet and setNets (`nets_wf_after_any_history`, "
+    "`check_front_clause_holds`, `net_getters_in_range`: every index the inline getters nbPinsNet/pinCell/pinXOffset compute is in "
+    "bounds and every pinCell is a cell, after ANY history of accepted and refused calls); that model is tied by the `nv*` "
+    "correspondence (three histories per instance, valid calls and calls malformed in one of 12 ways; both arrays and three "
+    "lengths compared after every call) and is NOT regenerated from the source.  Outside it: the nets as the placers see them "
+    "(they do not write the net arrays: Gen/WriteSets).  NOT a theorem: (b) that the placers "
     "change no length rests on `placer_writes_keep_lengths` over Gen/WriteSets (every write site reachable from a placement "
     "call is an element write `m[i] = ..`, a scalar flag, or the in-use guard) — the step 'an element write cannot change "
     "size()' is C++ semantics, and the completeness of the site scan is tools/gen/WriteSets.py's (trusted as for C03); (c) the "
